@@ -8,10 +8,12 @@ CHECKS = {
     'C01': ('model_checking', 'stateless deviation-bounded schedule exploration of the real Controller/Engine classes under a controlled scheduler (CHESS style), invariant monitor at every launch',
             'E1',
             'Implementation-level model checking: the real Controller, ComponentState, Engine, RepeatingEngine and monitor classes run under a '
-            'virtual runtime that owns rx schedulers, threads, events, locks, sleeps, the clock and the task backend. ~500 (workflow DAG x exit '
-            'script) scenarios are executed on the canonical fair schedule and every schedule with <=1 deviation is executed for the core '
-            'scenarios (thorough: for every single-fault scenario). The launch-ordering invariant is evaluated at every task creation and every '
-            'ComponentState.run(). Bounded: <=4-5 components, <=2 stages, deviation bound 1.',
+            'virtual runtime that owns rx schedulers, threads, events, locks, sleeps, the clock and the task backend. ~900 (workflow x exit '
+            'script x duration) scenarios over 21 workflow shapes (incl. a real DoWhile loop and a restart from a later stage) are executed on '
+            'the canonical fair schedule; every schedule with <=1 deviation is executed for the core scenarios (thorough: for every single-fault '
+            'scenario), every 1-deviation schedule at boundary actions for the two-fault race scenarios, and line-level preemption points with a '
+            'stall deviation inside Controller.run / finishedCheck / ComponentState.finish. The launch-ordering invariant is evaluated at every '
+            'task creation and every ComponentState.run(). Bounded: <=6 components, <=3 stages, deviation bound 1 (2 at boundary actions, thorough).',
             'scripted task backend/clock/output listing; scheduling points at synchronisation operations only; optimizer, hybrid, memoization off',
             'DESIGN.md §2.1, §3 C01'),
     'C02': ('model_checking', 'stateless deviation-bounded schedule exploration of the real Controller/Engine classes under a controlled scheduler, final-state oracle from an independent reference model',
@@ -31,10 +33,12 @@ CHECKS = {
             'DESIGN.md §3 C11'),
     'C12': ('model_checking', 'exhaustive enumeration of exit-reason x restart-hook-answer histories through the real restart path under the controlled runtime, policy monitor',
             'E1',
-            'History enumeration on the implementation: for 30 (quick) / 120 (thorough) option combinations (maxRestarts, restartHookFile, '
+            'History enumeration on the implementation: for 45 (quick) / 120 (thorough) option combinations (maxRestarts, restartHookFile, '
             'restartHookOn, shutdownOn, stability answer) every exit-reason sequence of the stated prefix tree and every single restart-hook '
             'answer deviation is driven through postMortemCheck -> _restartComponent -> ComponentState.restart -> Engine.restart -> run with a '
-            'real hook file; every relaunch is checked against the policy of the statement (restartable reason, budget, resubmission cap, final state).',
+            'real hook file; every relaunch is checked against the policy of the statement (restartable reason, budget, resubmission cap, final state); '
+            'a late restart request after the final state must be refused. Repeating components (restart of the last execution, incl. a failing restart '
+            'submission) run through the real controller stage loop; an external kill is injected at every scheduling step after a restart.',
             'canonical schedule only (policy is sequential per component); upper bounds only; scripted task backend and hook answers',
             'DESIGN.md §3 C12'),
     # id: (level, technique, engine, text, note, design_ref)
@@ -109,7 +113,9 @@ CHECKS = {
             'The real RepeatingEngine.run + CreateMonitor poll loop runs under the virtual runtime; for every combination of repeatRetries, kill delay, '
             'check-producer-output, observer task script, producer output pattern and event kind, the producers-finished notification (or an external kill '
             'followed by it) is injected at EVERY choice point of the run, including every source line of EngineTaskController/schedule_next_instance. A temporal '
-            'monitor checks launch-before-output, final-output-observed and bounded termination. One window defect was found and fixed, one is a known finding.',
+            'monitor checks launch-before-output, final-output-observed and bounded termination. Part B runs observers inside the real controller stage loop '
+            '(two subjects in both listing orders, producers that write only at exit, all 1-deviation schedules for the two-subject observer). '
+            'One window defect was found and fixed, one is a known finding.',
             'notification delivered by calling notify_all_producers_finished(); window of 26 virtual seconds before the event, horizon 400 s after; canonical schedule otherwise',
             'DESIGN.md §3 C13'),
     'C14': ('fault_enumeration', 'exhaustive enumeration of every crash point, torn-write prefix and I/O error of the recorded write log of every update, under an unbuffered and a buffered file model',
@@ -165,8 +171,9 @@ CHECKS = {
             'E2',
             'Every weight vector of the stated grids (all compositions of 1 in hundredths for n<=3, thousandths n<=2, k/m rationals, '
             'missing/malformed at every position) is loaded by the real FlowIRConcrete; a real StatusMonitor is driven through every '
-            '(current stage, finished/in-transit partition, progress in {0,.5,1}) assignment. Exhaustive over those finite grids; says '
-            'nothing about weights outside them.',
+            '(current stage, finished/in-transit partition, progress in {0,.5,1}) assignment, with a stage transition of the stand-in controller '
+            'at every call position of a status pass; the real Controller is probed at every choice point of controlled-runtime executions '
+            '(progress in [0,1], monotone, 1 only when everything finished). Exhaustive over those finite grids; says nothing about weights outside them.',
             'tolerances 1e-6 (result) / 1e-9 (given); stand-in controller supplies per-stage progress; strings judged only at StatusMonitor level',
             'DESIGN.md §3 C20'),
 }
@@ -202,7 +209,7 @@ def main():
             'add_only': True,
         },
         'engines': [
-            {'name': 'E1', 'path': '/verif/verif/vsched', 'serves_properties': ['C01', 'C02', 'C12', 'C13'],
+            {'name': 'E1', 'path': '/verif/verif/vsched', 'serves_properties': ['C01', 'C02', 'C12', 'C13', 'C20'],
              'kind_free_text': 'controlled runtime (virtual rx schedulers/threads/events/clock) + deviation-bounded stateless schedule explorer over the real Controller/Engine classes'},
             {'name': 'E2', 'path': '/verif/verif/props', 'serves_properties': [p for p in ALL if p not in ('C01', 'C02', 'C12', 'C13', 'C14')],
              'kind_free_text': 'exhaustive enumerators of finite input/history spaces driven through the real entry points, judged by independent reference models or differential oracles'},
